@@ -515,7 +515,10 @@ def tail(s, n=12):
 
 
 # --------------------------------------------------------------------------- shared steps of the C08 / C09 checks
-VARIANTS = [("SS", "Serial", "string"), ("SF", "Serial", "file"), ("OS", "OpenMP", "string"), ("OF", "OpenMP", "file")]
+ALL_VARIANTS = [("SS", "Serial", "string"), ("SF", "Serial", "file"), ("OS", "OpenMP", "string"), ("OF", "OpenMP", "file")]
+# development knob (binding demonstrations on a loaded machine): VERIF_VARIANTS=SS,OF restricts the real runs
+VARIANTS = [v for v in ALL_VARIANTS
+            if not os.environ.get("VERIF_VARIANTS") or v[0] in os.environ["VERIF_VARIANTS"].split(",")]
 KERNEL_A = 3                     # the kernel computes out[i] = a*i + 7
 ACTIONS = ["Start", "Mkdir", "Stat", "OpenW", "WriteChunk", "CloseW", "Fsync", "RenameTmp", "SpawnCompiler",
            "WaitCompiler", "ExecSpawn", "ExecWait", "ReadFile", "Dlopen", "Run"]
